@@ -1,2 +1,56 @@
-(** placeholder until the C09 theorems are in place *)
-From Texel Require Import Prelude.Base.
+(** * C09 — polygons reaching outside the grid are rejected, never silently moved.
+
+    [insideGrid g p]: p lies in the half-open integer extent [min, min + 2^deepest * res) of the
+    index (left and bottom borders belong to it, right and top do not).  Coordinates are the
+    tool's integers (units of 1e-10).  [0 < gres g] is the only hypothesis: FromTileMatrixSet
+    yields a positive resolution for every tile matrix set whose extent spans at least 2^deepest units
+    (otherwise the Go code divides by zero, which the model reports as [Err DivZero]). *)
+From Coq Require Import ZArith List Bool.
+From Texel Require Import Prelude.Base Index.Model Index.ProofsInsert Snap.Model Snap.ProofsOutside.
+Import ListNotations.
+Open Scope Z_scope.
+
+(** a polygon is indexed iff EVERY vertex lies inside the half-open extent *)
+Theorem C09_insert_iff_inside : forall g P, 0 < gres g ->
+  (exists hs, insertPolygon g P = Ok hs) <-> Forall (insideGrid g) (concat P).
+Proof. exact insertPolygon_ok_iff. Qed.
+Print Assumptions C09_insert_iff_inside.
+
+(** any vertex outside, by any amount and on any side: OutsideGrid *)
+Theorem C09_insert_outside : forall g P, 0 < gres g ->
+  ~ Forall (insideGrid g) (concat P) <-> insertPolygon g P = Err OutsideGrid.
+Proof. exact insertPolygon_outside. Qed.
+Print Assumptions C09_insert_outside.
+
+(** SnapPolygon then panics by default and returns the empty result with ignore-outside-grid *)
+Theorem C09_snap_outside : forall g P levels cfg, 0 < gres g ->
+  ~ Forall (insideGrid g) (concat P) ->
+  snapPolygon g P levels cfg = if ignoreOutsideGrid cfg then Ok [] else Err OutsideGrid.
+Proof. exact snap_outside. Qed.
+Print Assumptions C09_snap_outside.
+
+(** such a vertex is never snapped onto a border pixel: geometry is produced only if all vertices are inside *)
+Theorem C09_snapped_only_if_inside : forall g P levels cfg r, 0 < gres g ->
+  snapPolygon g P levels cfg = Ok r -> r <> [] -> Forall (insideGrid g) (concat P).
+Proof. exact snapped_only_if_inside. Qed.
+Print Assumptions C09_snapped_only_if_inside.
+
+(** and a polygon inside is not rejected: snapping proceeds on the indexed polygon *)
+Theorem C09_inside_is_snapped : forall g P levels cfg, 0 < gres g ->
+  Forall (insideGrid g) (concat P) ->
+  exists hs, insertPolygon g P = Ok hs /\ snapPolygon g P levels cfg = snapIndexed g hs P levels cfg.
+Proof. exact snap_inside. Qed.
+Print Assumptions C09_inside_is_snapped.
+
+(** non-vacuity / regression of F2: grid 32x32 px of 0.5 at the origin; a vertex 0.2 left of the
+    border (less than one pixel outside) is rejected, a vertex exactly on the left border is accepted,
+    a vertex exactly on the right border is rejected. *)
+Definition g32 : grid := mkGrid (mkExtent 0 0 160000000000 160000000000) 5000000000 5.
+Example C09_regression_F2 :
+  0 < gres g32 /\
+  insertPolygon g32 [[(-2000000000, 10000000000); (50000000000, 10000000000); (50000000000, 50000000000)]] = Err OutsideGrid /\
+  is_ok (insertPolygon g32 [[(0, 10000000000); (50000000000, 10000000000); (50000000000, 50000000000)]]) = true /\
+  insertPolygon g32 [[(160000000000, 10000000000); (50000000000, 10000000000); (50000000000, 50000000000)]] = Err OutsideGrid /\
+  snapPolygon g32 [[(-1, 10000000000); (50000000000, 10000000000); (50000000000, 50000000000)]] [5%nat]
+     (mkConfig false true false) = Ok [].
+Proof. vm_compute. repeat split; reflexivity. Qed.
